@@ -13,8 +13,8 @@ Lemma CI_uref_ref : forall h j d nj inl x, CI h j d nj inl x -> live x ->
   CI h j d nj inl (w_rc (c_rc x + 1) (w_uref (c_uref x + 1) x)).
 Proof. intros. ci x. Qed.
 
-Lemma logit_GI : forall H J D e w, GI H J D w -> GI H J D (logit e w).
-Proof. intros. eapply GI_ext; [| | | | exact H0]; reflexivity. Qed.
+Lemma logit_GI : forall H J (D : dctx) e w, GI H J D w -> GI H J D (logit e w).
+Proof. intros. eapply GI_ext; [|exact H0]. frame. Qed.
 
 Lemma CI_live_state_rc : forall h j d nj inl x, CI (h + 1) j d nj inl x -> 0 <= h ->
   (c_st x = ACTIVE \/ c_st x = ESTABLISHED) -> c_alloc x = true /\ 1 <= c_rc x /\ c_rc x - 1 <> 0.
@@ -34,12 +34,12 @@ Section More.
     destruct (c_rc (conns w c) - 1 =? 0) eqn:E2; [apply Z.eqb_eq in E2; lia|]. reflexivity.
   Qed.
 
-  Definition got (H J : nat -> Z) (D : nat -> bool) (w : world) (z : Z) : Prop :=
+  Definition got (H J : nat -> Z) (D : dctx) (w : world) (z : Z) : Prop :=
     (z = -1 /\ GI H J D w) \/ (exists n, z = Z.of_nat n /\ GI (addf H n 1) J D w /\ 0 <= H n).
 
-  Lemma first_get_ok : forall H J D w, GI H J D w -> safe (got H J D) (first_get w).
+  Lemma first_get_ok : forall H J (D : dctx) w, GI H J D w -> s_alloc w = true -> safe (got H J D) (first_get w).
   Proof.
-    intros H J D w G. unfold first_get. apply safe_chks.
+    intros H J D w G Sv. unfold first_get. apply safe_chks; auto.
     destruct (s_list w) as [|c t] eqn:El; simpl.
     - left; auto.
     - pose proof G as (A & _ & _). pose proof (A c) as Ac.
@@ -50,12 +50,14 @@ Section More.
       split; [reflexivity | split; [exact G1 | eapply CI_h_nonneg; exact Ac]].
   Qed.
 
-  Lemma next_get_ok : forall H J D c w, GI H J D w -> 1 <= H c ->
+  Lemma next_get_ok : forall H J (D : dctx) c w, GI H J D w -> 1 <= H c ->
     safe (fun w' z => got H J D w' z /\ (forall n, z = Z.of_nat n -> (n < c)%nat)) (next_get c w).
   Proof.
     intros H J D c w G Hh. pose proof G as (A & B & _). unfold next_get.
-    apply safe_chk. { eapply CI_live_alloc; [apply (A c)|]. eapply CI_h_live; [apply (A c)|]; auto. }
-    apply safe_chks. destruct (succ_of c (s_list w)) as [n|] eqn:Es; simpl.
+    assert (Al : c_alloc (conns w c) = true).
+    { eapply CI_live_alloc; [apply (A c)|]. eapply CI_h_live; [apply (A c)|]; auto. }
+    apply safe_chk; auto.
+    apply safe_chks; [apply (GI_svc_alive _ _ _ _ c G Al)|]. destruct (succ_of c (s_list w)) as [n|] eqn:Es; simpl.
     - destruct (succ_of_lt _ _ _ (proj1 B) Es) as (Lt & In).
       apply mem_In in In. pose proof (A n) as An. rewrite In in An.
       assert (L : live (conns w n)) by (eapply CI_inl_live; eauto).
@@ -66,14 +68,14 @@ Section More.
     - split. left; auto. intros n En. lia.
   Qed.
 
-  Lemma addf_comm_GI : forall H J D a b w, GI (addf (addf H a 1) b 1) J D w -> GI (addf (addf H b 1) a 1) J D w.
+  Lemma addf_comm_GI : forall H J (D : dctx) a b w, GI (addf (addf H a 1) b 1) J D w -> GI (addf (addf H b 1) a 1) J D w.
   Proof.
-    intros. eapply GI_ctx; [| exact H0]. intros i. repeat split; auto.
+    intros. eapply GI_ctx; [| | exact H0]; auto. intros i. repeat split; auto.
     unfold addf. destruct (Nat.eqb i a), (Nat.eqb i b); lia.
   Qed.
 
   (* the reference-holding list walk (application iteration, qb_ipcs_destroy) *)
-  Lemma walk_ok : forall fuel lg disc H J D c w,
+  Lemma walk_ok : forall fuel lg disc H J (D : dctx) c w,
     GI (addf H c 1) J D w -> 0 <= H c -> (c < fuel)%nat ->
     safe (fun w' _ => GI H J D w') (walk true cb lg disc fuel c w).
   Proof.
@@ -101,10 +103,10 @@ Section More.
       + rewrite addf_other by lia. auto.
   Qed.
 
-  Lemma iterate_ok : forall lg disc H J D w,
-    GI H J D w -> safe (fun w' _ => GI H J D w') (iterate true cb lg disc w).
+  Lemma iterate_ok : forall lg disc H J (D : dctx) w,
+    GI H J D w -> s_alloc w = true -> safe (fun w' _ => GI H J D w') (iterate true cb lg disc w).
   Proof.
-    intros lg disc H J D w G. unfold iterate. apply safe_bind.
+    intros lg disc H J D w G Sv. unfold iterate. apply safe_bind.
     eapply safe_mono; [| apply first_get_ok; eauto].
     intros w1 z [(-> & G1) | (n & -> & G1 & Hn)]; cbv beta.
     - simpl. auto.
@@ -113,7 +115,7 @@ Section More.
   Qed.
 
   (* dropping a held reference on a connected connection never frees it *)
-  Lemma unref_held_live_ok : forall H J D c w,
+  Lemma unref_held_live_ok : forall H J (D : dctx) c w,
     GI (addf H c 1) J D w -> 0 <= H c ->
     (c_st (conns w c) = ACTIVE \/ c_st (conns w c) = ESTABLISHED) ->
     exists w', conn_unref cb c w = Ok w' 0 /\ GI H J D w' /\ s_list w' = s_list w.
@@ -125,7 +127,7 @@ Section More.
     eexists; split; [reflexivity|]. split; auto.
   Qed.
 
-  Lemma fc_step : forall H J D c w newfc,
+  Lemma fc_step : forall H J (D : dctx) c w newfc,
     let w1 := put c (w_rc (c_rc (conns w c) + 1) (conns w c)) w in
     let w2 := if c_fc (conns w1 c) =? newfc then w1 else put c (w_fc newfc (conns w1 c)) w1 in
     GI (addf H c 1) J D w1 -> c_alloc (conns w c) = true ->
@@ -138,14 +140,14 @@ Section More.
       + rewrite C1. reflexivity.
       + rewrite C1. simpl. auto.
     - split; [|split; [|split]].
-      + destruct G1 as (A1 & B1 & C1'). apply GI_put_same; [split; auto | apply CI_fc; apply A1 | simpl; tauto].
+      + pose proof G1 as (A1 & _). apply GI_put_same; [exact G1 | apply CI_fc; apply A1 | simpl; tauto | reflexivity].
       + reflexivity.
       + unfold put; cbn [conns set_conns]. rewrite updf_same. cbn [c_st w_fc]. rewrite C1. reflexivity.
       + unfold put; cbn [conns set_conns]. rewrite updf_same. cbn [c_alloc w_fc]. rewrite C1. simpl. auto.
   Qed.
 
   (* qb_ipcs_request_rate_limit: one connection of the list *)
-  Lemma rate_one_ok : forall newfc changed H J D c w,
+  Lemma rate_one_ok : forall newfc changed H J (D : dctx) c w,
     GI H J D w -> mem_id c (s_list w) = true ->
     safe (fun w' _ => GI H J D w' /\ s_list w' = s_list w) (rate_one true cb newfc changed c w).
   Proof.
@@ -166,10 +168,10 @@ Section More.
                       c_alloc (conns w2 c) = true) by (apply fc_step; auto).
     all: destruct G2 as (G2 & L2 & S2 & Al2).
     all: destruct (unref_held_live_ok H J D c w2 G2 H0) as (w3 & E3 & G3 & L3); [rewrite S2, S; auto|].
-    all: destruct changed; [unfold chk; rewrite Al2; apply safe_chks|]; rewrite E3; simpl; split; auto; congruence.
+    all: destruct changed; [unfold chk; rewrite Al2; apply safe_chks; [apply (GI_svc_alive _ _ _ _ c G2 Al2)|]|]; rewrite E3; simpl; split; auto; congruence.
   Qed.
 
-  Lemma rate_loop_ok : forall newfc changed l H J D w,
+  Lemma rate_loop_ok : forall newfc changed l H J (D : dctx) w,
     GI H J D w -> (forall c, In c l -> mem_id c (s_list w) = true) ->
     safe (fun w' _ => GI H J D w') (rate_loop true cb newfc changed l w).
   Proof.
@@ -178,24 +180,40 @@ Section More.
     intros w1 z1 (G1 & L1). cbv beta. apply IHl; auto. intros c Hc. rewrite L1. apply M. right; auto.
   Qed.
 
-  Lemma rate_limit_ok : forall rl H J D w,
-    GI H J D w -> safe (fun w' _ => GI H J D w') (rate_limit true cb rl w).
+  Lemma rate_limit_ok : forall rl H J (D : dctx) w,
+    GI H J D w -> s_alloc w = true -> safe (fun w' _ => GI H J D w') (rate_limit true cb rl w).
   Proof.
-    intros rl H J D w G. unfold rate_limit. apply safe_chks.
+    intros rl H J D w G Sv. unfold rate_limit. apply safe_chks; auto.
     apply rate_loop_ok.
-    - eapply GI_ext; [| | | | exact G]; reflexivity.
+    - eapply GI_ext; [| exact G]. frame.
     - intros c Hc. simpl. apply mem_In. auto.
   Qed.
 
-  (* qb_ipcs_destroy *)
-  Lemma destroy_ok : forall H J D w,
-    GI H J D w -> safe (fun w' _ => GI H J D w') (destroy true cb w).
+  (* qb_ipcs_destroy: the frame owns the creator's reference until its last statement *)
+  Lemma destroy_ok : forall H J (D : dctx) w,
+    GI H J D w -> dframe D = false -> s_creator w = true -> destroy_called w = true ->
+    safe (fun w' _ => GI H J D w') (destroy true cb w).
   Proof.
-    intros H J D w G. unfold destroy. apply safe_chks. apply safe_bind.
-    eapply safe_mono; [| apply iterate_ok; eauto].
-    intros w1 z1 G1. cbv beta. apply safe_chks.
-    unfold unref_s. apply safe_chks. cbn [s_rc set_withdrawn].
-    destruct (s_rc w1 <? 1); [simpl; right; reflexivity|].
-    destruct (s_rc w1 - 1 =? 0); simpl; (eapply GI_ext; [| | | | exact G1]; reflexivity).
+    intros H J D w G Df Cr Dc.
+    assert (G' : GI H J (setdf D true) w).
+    { destruct G as (A & B & C & (S1 & S2 & S3 & S4)). split; [|split; [|split]]; auto.
+      split; [|split; [|split]]; auto. }
+    unfold destroy. apply safe_chks; [apply (GI_svc_creator _ _ _ _ G Cr)|]. apply safe_bind.
+    eapply safe_mono; [| apply (iterate_ok false true H J (setdf D true) w G'); apply (GI_svc_creator _ _ _ _ G Cr)].
+    intros w1 z1 G1. cbv beta.
+    pose proof G1 as (A1 & B1 & C1 & (S1 & S2 & S3 & S4)). simpl in S4. destruct (S4 eq_refl) as (Cr1 & Dc1).
+    assert (Sv1 : s_alloc w1 = true) by (apply (GI_svc_creator _ _ _ _ G1 Cr1)).
+    destruct (S1 Sv1) as (R1 & R2). rewrite Cr1 in R2.
+    apply safe_chks; auto.
+    unfold unref_s. apply safe_chks; auto. cbn [s_rc set_withdrawn set_creator].
+    destruct (s_rc w1 <? 1) eqn:E1; [apply Z.ltb_lt in E1; lia|].
+    pose proof (nalloc_upto_nonneg (conns w1) (next w1)) as Nn. fold (nalloc w1) in Nn.
+    destruct (s_rc w1 - 1 =? 0) eqn:E2; simpl.
+    - apply Z.eqb_eq in E2. split; [|split; [|split]]; auto.
+      unfold SI; simpl. rewrite Df. unfold nalloc in *; simpl.
+      repeat split; intros; try discriminate; auto; try lia; congruence.
+    - apply Z.eqb_neq in E2. split; [|split; [|split]]; auto.
+      unfold SI; simpl. rewrite Df. unfold nalloc in *; simpl.
+      repeat split; intros; try discriminate; auto; try lia; congruence.
   Qed.
 End More.
